@@ -22,6 +22,7 @@ class Opts:
         self.recursion = True      # list recursion templates
         self.exotic_atoms = False  # quoted atoms with odd characters (needs full repr model)
         self.max_preds = 5
+        self.open_leaves = 0.0     # probability that a leaf fact's argument is a structure with fresh variables
         self.deep = False
         self.__dict__.update(kw)
 
@@ -207,7 +208,12 @@ def gen_program(rng, o):
     for k, (name, ar) in enumerate(leaves):
         nsol = rng.choice([0, 1, 2, 3]) if k > 0 else rng.choice([1, 2, 3])
         for j in range(nsol):
-            clauses.append([name, [A('%s_%d' % (name, j))], ['true']])
+            if rng.random() < o.open_leaves:
+                # the answer still identifies its path (functor name) but carries variables created by the activation
+                sh = rng.choice([[V('_')], [V('_'), V('_')], [V('W'), V('W')], [V('_'), A('k')]])
+                clauses.append([name, [['fun', '%s_%d' % (name, j), sh]], ['true']])
+            else:
+                clauses.append([name, [A('%s_%d' % (name, j))], ['true']])
         if nsol == 0:
             clauses.append([name, [A('never')], ['fail']])
     # interleave clause groups sometimes (grouping by key must follow first occurrence)
